@@ -8,7 +8,8 @@
 //! non-terminal, wildcards with data, a wildcard that exists only as an empty non-terminal, wildcard
 //! CNAME, a CNAME chain c1..c9, loops, CNAMEs to a missing name / NODATA / outside the zone / wildcard /
 //! below a delegation, a delegation whose name servers are below the cut, the cut itself, in the parent
-//! zone, below a sibling cut and outside, AAAA-only name-server / MX / SRV targets), alone and in a
+//! zone, below a sibling cut and outside, a second occluded cut below the first, AAAA-only name-server /
+//! MX / SRV targets, CNAME / MX targets spelled in another letter case, a two-record TYPE257 RRset), alone and in a
 //! catalog with a child zone two labels below an entry-less node, a child zone at the delegation and a
 //! class-CH zone; a zone bg. with RRsets and referrals that overflow 512 / 1232 octets, CNAME loops and
 //! truncated answers whose RDATA names share labels with the TSIG key name (every query to bg. is also
@@ -96,6 +97,7 @@ fn main_zone(t: u32) -> ZoneDef {
     z.add("a.ap.ex.", AAAA, 61, v6(1));
     z.add("a.ap.ex.", TXT, 62, txt(b"hello"));
     z.add("a.ap.ex.", 257, 63, b"\x00\x05issue;".to_vec());
+    z.add("a.ap.ex.", 257, 63, b"\x00\x05issuewild;".to_vec());
     z.add("b.a.ap.ex.", TXT, 64, txt(b"b"));
     z.add("x.ent.ap.ex.", A, 65, v4(3));
     z.add("_s._tcp.ap.ex.", SRV, 66, srv(80, "a.ap.ex."));
@@ -121,6 +123,9 @@ fn main_zone(t: u32) -> ZoneDef {
     z.add("cdel.ap.ex.", CNAME, 75, name("www.d.ap.ex."));
     z.add("cent.ap.ex.", CNAME, 75, name("ent.ap.ex."));
     z.add("csub.ap.ex.", CNAME, 75, name("k.sub.deep.ap.ex."));
+    // names in RDATA spelled in another letter case than the owner names / the apex
+    z.add("cmix.ap.ex.", CNAME, 75, name("A.Ap.EX."));
+    z.add("mxmix.ap.ex.", MX, 76, mx(1, "Mail.AP.ex."));
     z.add("d.ap.ex.", NS, 80, name("ns.d.ap.ex."));
     z.add("d.ap.ex.", NS, 80, name("d.ap.ex."));
     z.add("D.ap.ex.", NS, 80, name("ns.ap.ex."));
@@ -132,6 +137,8 @@ fn main_zone(t: u32) -> ZoneDef {
     z.add("d.ap.ex.", A, 83, v4(83));
     z.add("d.ap.ex.", AAAA, 84, v6(83));
     z.add("occ.d.ap.ex.", TXT, 85, txt(b"occluded"));
+    z.add("sub.d.ap.ex.", NS, 85, name("ns.sub.d.ap.ex."));           // a second, occluded cut below the first
+    z.add("ns.sub.d.ap.ex.", A, 85, v4(85));
     z.add("sib.ap.ex.", NS, 86, name("ns.sib.ap.ex."));
     z.add("ns.sib.ap.ex.", A, 87, v4(87));
     z.add("v6.ap.ex.", NS, 88, name("ns.v6.ap.ex."));
@@ -375,7 +382,8 @@ fn section(d: &DMsg, s: usize) -> Vec<RR> {
     v.sort();
     v
 }
-fn sorted(mut v: Vec<RR>) -> Vec<RR> { v.sort(); v }
+fn sorted(v: Vec<RR>) -> Vec<RR> { let mut v = canon(&v); v.sort(); v }
+fn canon(v: &[RR]) -> Vec<RR> { v.iter().map(|r| (r.0.clone(), r.1, r.2, r.3, canon_rdata(r.1, &r.4))).collect() }
 /// multiset inclusion
 fn included(small: &[RR], big: &[RR]) -> bool {
     let mut rest = big.to_vec();
@@ -449,11 +457,11 @@ fn main() {
                         let (an, ns, ar) = (section(&t, 0), section(&t, 1), section(&t, 2));
                         if an != sorted(w.an.clone()) { fail("[C05] answer section (as a multiset)", &input(how), &show(&an), &show(&sorted(w.an.clone()))); }
                         if ns != sorted(w.ns.clone()) { fail("[C05] authority section (as a multiset)", &input(how), &show(&ns), &show(&sorted(w.ns.clone()))); }
-                        if !included(&w.ar_must, &ar) || !included(&ar, &w.ar_may) {
+                        if !included(&canon(&w.ar_must), &ar) || !included(&ar, &canon(&w.ar_may)) {
                             fail("[C05] additional section: must contain the addresses of the NS/MX/SRV targets (glue for a referral) and nothing else", &input(how), &show(&ar), &("at least", show(&sorted(w.ar_must.clone())), "at most", show(&sorted(w.ar_may.clone()))));
                         }
                     }
-                    w.glue
+                    canon(&w.glue)
                 }
             };
             // ---- UDP against the complete response (C04)
